@@ -512,7 +512,7 @@ def run(ctx):
     ctx.info["cases_roundtrip"] = len(cases)
     ctx.info["cases_reader_total"] = len(total)
     try:
-        par.pmap_tally(chunk, cases + total, ctx.tally, nchunks=par.NPROC * 8)
+        G.run_cases(one, cases + total, ctx.tally)
     finally:
         shutil.rmtree(SCRATCH, ignore_errors=True)
 
